@@ -668,10 +668,6 @@ def cmp(op, a, b):
             return op == "ne"
         same = land([cmp("eq", x, y) for x, y in zip(a, b)])
         return same if op == "eq" else lnot(same)
-    if op in ("eq", "ne") and b in (0, 1) and not isinstance(b, bool) and isinstance(a, T) and a.op == "mod" and a.args[1] == 2:
-        # parity tests: x % 2 == 1, x % 2 != 0 and bool(x % 2) are one term; == 0 / != 1 its negation
-        odd = truth(a)
-        return odd if (op == "eq") == (b == 1) else lnot(odd)
     if op in ("is", "isnot", "eq", "ne") and isinstance(a, T) and isinstance(b, T) and a.op == "ext" and b.op == "ext":
         same = a.args[0] == b.args[0]
         return same if op in ("is", "eq") else not same
@@ -689,6 +685,10 @@ def cmp(op, a, b):
         a, b, op = b, a, CMP_SWAP[op]
     if op in CMP_SWAP and isinstance(a, T) and isinstance(b, T) and sortkey(a) > sortkey(b):
         a, b, op = b, a, CMP_SWAP[op]  # `n > i` and `i < n` are one term
+    if op in ("eq", "ne") and b in (0, 1) and not isinstance(b, bool) and isinstance(a, T) and a.op == "mod" and a.args[1] == 2:
+        # parity tests: x % 2 == 1, x % 2 != 0 and bool(x % 2) are one term; == 0 / != 1 its negation
+        odd = truth(a)
+        return odd if (op == "eq") == (b == 1) else lnot(odd)
     if op in ("in", "notin") and isinstance(a, T):
         # one byte against a constant set of bytes -- `c in b"abc"`, `bytes([c]) in b"abc"`, `s[i:i+1] in {b"a": .., b"b": ..}` --
         # is one term: the byte as an integer, the set as sorted bytes
